@@ -28,7 +28,7 @@ FAMILIES = [
     (r'^C01/', ['stream2']), (r'^C02/', ['stream1']), (r'^C19/.*set1', ['pairing1']), (r'^C19/', ['pairing2', 'pairing1']),
 ]
 KANI_FAST = ('word', 'bits', 'events', 'events_mods', 'events_decode')
-NARGS = {'word': 1, 'bits': 3, 'stream1': 5, 'stream2': 5, 'events': 8, 'events_mods': 8, 'events_decode': 8, 'events_values': 8, 'events_values_all': 8, 'resync1': 8, 'resync2': 8, 'pairing1': 3, 'pairing2': 3, 'injective1': 5, 'injective2': 5, 'keyboard1': 8, 'keyboard2': 8, 'layout_total': 5, 'switching': 10}
+NARGS = {'word': 1, 'bits': 3, 'stream1': 5, 'stream2': 5, 'events': 8, 'events_mods': 8, 'events_decode': 8, 'events_values': 8, 'events_values_all': 8, 'resync1': 8, 'resync2': 8, 'pairing1': 3, 'pairing2': 3, 'injective1': 5, 'injective2': 5, 'keyboard1': 8, 'keyboard2': 8, 'layout_total': 5, 'switching': 10, 'events_real': 9}
 
 
 def scenarios_for(oid):
